@@ -31,6 +31,7 @@ type c07Desc struct {
 	Ext     [][][]string   `json:"extension_programs"` // per extension, per faulty generation
 	Delays  map[string]int `json:"hook_delay_ms"`
 	T       int64          `json:"timeout_ms"`
+	Subs    []string       `json:"healthy_subscriptions,omitempty"` // per extension: what it subscribes to once it behaves ("IS" default, "I", "S", "-" = nothing)
 	EventKB int            `json:"event_kib,omitempty"` // pad every event to this size (needed by the step next-noread)
 }
 
@@ -83,6 +84,15 @@ func genC07(tier string, seed int64) []Case {
 		}
 		dd := d
 		cases = append(cases, Case{ID: "C07/" + d.Salt, Class: "idle-exit", Desc: d, Timeout: 150 * time.Second, Run: func(c *Ctx) { runC07(c, dd) }})
+	}
+	// healthy extensions that are not subscribed to INVOKE (or to nothing): service is normal all the same
+	for i, subs := range [][]string{{"S"}, {"-", "IS"}, {"S", "I"}, {"-"}} {
+		d := c07Desc{Salt: fmt.Sprintf("subs-%d", i), NExt: len(subs), Faulty: 1, T: 400, Delays: map[string]int{}, Rt: [][]string{{"next", "exit1"}}, Subs: subs}
+		for e := 0; e < d.NExt; e++ {
+			d.Ext = append(d.Ext, [][]string{{}})
+		}
+		dd := d
+		cases = append(cases, Case{ID: "C07/" + d.Salt, Class: "subs", Desc: d, Timeout: 150 * time.Second, Run: func(c *Ctx) { runC07(c, dd) }})
 	}
 	// a runtime whose init error report is larger than the response size limit, and that then exits / stalls / goes on
 	for i, progs := range [][][]string{
@@ -404,7 +414,13 @@ func runC07(c *Ctx, d c07Desc) {
 	}
 	healthyExt := func(p *vh.Proc, pt *vh.Party, registered bool) vh.Exit {
 		if !registered {
-			if r := pt.Register(p.Base, []string{"INVOKE", "SHUTDOWN"}, ""); r.Status != 200 {
+			subs := []string{"INVOKE", "SHUTDOWN"}
+			var idx int
+			fmt.Sscanf(p.Base, "ext%d", &idx)
+			if idx < len(d.Subs) {
+				subs = subsOf(d.Subs[idx])
+			}
+			if r := pt.Register(p.Base, subs, ""); r.Status != 200 {
 				<-p.Ctx.Done()
 				return vh.Exit{Signal: 9}
 			}
